@@ -341,7 +341,7 @@ def run_goals(ctx, tag, goals):
     nsh = min(core.NPROC, max(1, len(goals) // 3))
     files = []
     for s in range(nsh):
-        path = os.path.join(core.CASES, "%s_%s_%d.v" % (ctx.pid, tag, s))
+        path = os.path.join(core.CASES, "%s_p%d_%s_%d.v" % (ctx.pid, os.getpid(), tag, s))
         with open(path, "w") as f:
             f.write(HEADER_R + "\n".join(goals[s::nsh]) + "\n")
         files.append(path)
